@@ -9,9 +9,11 @@ endcreate                             flags cleared (unless an initializer raise
 view <id> <cols|-> <pred>             PopulationManager._get_view          -> ok
 sub <id> <parent> <cols|->            PopulationView.subview               -> ok | err subview
 get <view> <idx|-> <pred>             PopulationView.get                   -> ok <rows> <cols> | err <kind>
+                                      (<idx> = labels `3,1,2`, or a range OBJECT `r<start>:<stop>:<step>`)
 upd <view> S <name|~> <dtype> <rows|-> <vals|->     PopulationView.update  -> ok | err <kind>
 upd <view> D <rows|-> <name:dtype:vals;...|->
 upd <view> X                          (not a pandas object)
+                                      (<rows> of an update: labels, or `r<start>:<stop>:<step>` - the update's index is a RangeIndex)
 updx …                                the same, exception not caught by the initializer: ends the creation
 dump                                  -> ok <initial><adding> <rows> <cols> | ok <flags> none
 ```
@@ -92,6 +94,29 @@ def pred? (s : String) : Option Pred :=
   | some [p] => some p
   | _ => none
 
+/-- `r<start>:<stop>:<step>`: a `pd.RangeIndex` handed over as such (`step = 0` cannot be constructed) -/
+def range? (s : String) : Option Req :=
+  if s.front = 'r' then
+    match ((s.drop 1).toString).splitOn ":" with
+    | [a, b, c] => match a.toInt?, b.toInt?, c.toInt? with
+      | some a, some b, some c => if c = 0 then none else some (.range a b c)
+      | _, _, _ => none
+    | _ => none
+  else none
+
+/-- a request: a label list or a range object -/
+def req? (s : String) : Option Req :=
+  if s.front = 'r' then range? s else (natList s).map .labels
+
+/-- the row labels of an update whose index may be a range object (labels of an update that can be written
+down are never negative) -/
+def rows? (s : String) : Option (List Nat) :=
+  match req? s with
+  | none => none
+  | some r => match r.resolve with
+    | .ok l => some l
+    | .error _ => none
+
 def ucol? (n : Nat) (s : String) : Option UCol :=
   match s.splitOn ":" with
   | [name, dt, vs] => match dtype? dt, vals? vs with
@@ -102,14 +127,14 @@ def ucol? (n : Nat) (s : String) : Option UCol :=
 def upd? : List String → Option Upd
   | ["X"] => some .other
   | ["S", name, dt, rows, vs] =>
-    match dtype? dt, natList rows, vals? vs with
+    match dtype? dt, rows? rows, vals? vs with
     | some dt, some rows, some vs =>
       if vs.length = rows.length && vs.all (valOk dt) then
         some (.series (if name = "~" then none else some name) dt rows vs)
       else none
     | _, _, _ => none
   | ["D", rows, cols] =>
-    match natList rows with
+    match rows? rows with
     | none => none
     | some rows =>
       if cols = "-" then some (.frame rows [])
@@ -146,9 +171,9 @@ def step (s : St) : List String → St × String
       | .error e => (s, "err " ++ errName e)
     | _, _ => (s, "bad-op")
   | ["get", v, idx, q] =>
-    match findView s v, natList idx, pred? q with
+    match findView s v, req? idx, pred? q with
     | some v, some idx, some q =>
-      match get s.m v idx q with
+      match getReq s.m v idx q with
       | .ok t => (s, "ok " ++ showTable t)
       | .error e => (s, "err " ++ errName e)
     | _, _, _ => (s, "bad-op")
